@@ -107,7 +107,7 @@ func runMassiveMkdir(c Case) []Diff {
 	jail := newJail()
 	defer os.RemoveAll(jail)
 	populate(jail, c.Pre)
-	target := filepath.Join(jail, c.Target)
+	target := c.targetIn(jail)
 	opts := append([]gtree.Option{gtree.WithTargetDir(target), gtree.WithFileExtensions(c.Exts), gtree.WithMassive(context.Background())}, strayOpts(c)...)
 	if c.Dry {
 		opts = append(opts, gtree.WithDryRun())
@@ -116,7 +116,7 @@ func runMassiveMkdir(c Case) []Diff {
 	twin := newJail()
 	defer os.RemoveAll(twin)
 	populate(twin, c.Pre)
-	sopts := []gtree.Option{gtree.WithTargetDir(filepath.Join(twin, c.Target)), gtree.WithFileExtensions(c.Exts)}
+	sopts := []gtree.Option{gtree.WithTargetDir(c.targetIn(twin)), gtree.WithFileExtensions(c.Exts)}
 	if c.Dry {
 		sopts = append(sopts, gtree.WithDryRun())
 	}
@@ -150,8 +150,12 @@ func runMassiveMkdir(c Case) []Diff {
 	if nameErr(serr) != nameErr(err) {
 		d = append(d, Diff{What: "massive mkdir and simple mkdir disagree about the names", Real: "massive: " + classify(err), Model: "simple: " + classify(serr)})
 	}
-	if err == nil && serr == nil {
-		// both succeeded: the same file system (relative to the two jails)
+	oneRoot := bytes.Count(c.doc(), []byte("\n- ")) == 0 && !bytes.Contains(c.doc(), []byte("\n# "))
+	if oneRoot && !c.FromRoot && errClass(classify(err)) != errClass(classify(serr)) {
+		d = append(d, Diff{What: "massive mkdir of a one-root document ends differently from simple mkdir", Real: "massive: " + classify(err), Model: "simple: " + classify(serr)})
+	}
+	if (err == nil && serr == nil) || (oneRoot && !c.FromRoot) {
+		// both succeeded (or there is only one root): the same file system (relative to the two jails)
 		relSnap := func(j string) string {
 			var out []string
 			for _, e := range snapshot(j) {
